@@ -51,7 +51,9 @@ def _norm(v, lo, hi):
     return (v - lo) / (hi - lo)
 
 
-def spline_harness(fam, K, inverse, props, tag="", **kw):
+def spline_harness(fam, K, inverse, props, tag="", infeasible_floors=False, **kw):
+    """infeasible_floors: the floors in kw cannot be honoured (min_bin_width * K > 1 or min_bin_height * K > 1): for in-domain inputs the
+    function must refuse them with a ValueError instead of building a spline with negative bin sizes"""
     f = instrument(fam.func, fam.cuts)
     pspec = fam.params(K)
 
@@ -129,8 +131,12 @@ def spline_harness(fam, K, inverse, props, tag="", **kw):
             d[n] = np.zeros((1, m)) if zero else rng.normal(size=(1, m)) * 2
         return d
 
-    return Harness(f"{fam.name}_spline[K={K},inverse={inverse}{tag}]", run, post, raises={InputOutsideDomain: dom},
-                   native_call=native_call, native_clauses=native_clauses, native_raises={InputOutsideDomain: outside}, sample=sample,
+    raises = {InputOutsideDomain: dom}; nraises = {InputOutsideDomain: outside}
+    if infeasible_floors:
+        raises[ValueError] = lambda h, ctx: z3.Not(dom(h, ctx))
+        nraises[ValueError] = lambda h, inp: not outside(h, inp)
+    return Harness(f"{fam.name}_spline[K={K},inverse={inverse}{tag}]", run, post if not infeasible_floors else (lambda h, ctx, value: None), raises=raises,
+                   native_call=native_call, native_clauses=native_clauses if not infeasible_floors else (lambda h, inp, res: {}), native_raises=nraises, sample=sample,
                    functions=[fam.func], config={"family": fam.name, "K": K, "inverse": inverse, **kw})
 
 
